@@ -164,6 +164,12 @@ impl Broker {
                         _ => {}
                     }
                 }
+                if c.props.iter().any(|p| matches!(p, Prop::ReceiveMaximum(0) | Prop::MaximumPacketSize(0))) {
+                    // MQTT 5 section 3.1.2.11: a value of 0 is a Protocol Error
+                    self.send(tr, Packet::ConnAck { session_present: false, reason: 0x82, props: vec![] });
+                    tr.eof = true;
+                    return;
+                }
                 self.handshake(tr, c.clean_start);
             }
             Packet::Publish(pb) => {
@@ -242,32 +248,43 @@ impl Broker {
     }
 
     fn connack_packet(&self, sp: bool, reason: u8) -> Packet {
-        let mut props = Vec::new();
+        // A conformant broker never exceeds the client's Maximum Packet Size: optional properties
+        // are dropped first, then the per-connection ones; the broker's limits (identical on every
+        // connection of a case) go last, so that they are either always or never announced.
+        let p = &self.plan.props;
+        let mut limits = Vec::new();
+        let mut per_conn = Vec::new();
         if reason == 0 {
-            let p = &self.plan.props;
             if let Some(v) = p.receive_max {
-                props.push(Prop::ReceiveMaximum(v));
+                limits.push(Prop::ReceiveMaximum(v));
             }
             if let Some(v) = p.max_packet {
-                props.push(Prop::MaximumPacketSize(v));
+                limits.push(Prop::MaximumPacketSize(v));
             }
             if let Some(v) = p.max_qos {
-                props.push(Prop::MaximumQoS(v));
+                limits.push(Prop::MaximumQoS(v));
             }
             if let Some(v) = p.server_keepalive {
-                props.push(Prop::ServerKeepAlive(v));
+                per_conn.push(Prop::ServerKeepAlive(v));
             }
             if let Some(v) = &p.assigned_id {
-                props.push(Prop::AssignedClientId(v.clone()));
+                per_conn.push(Prop::AssignedClientId(v.clone()));
             }
-            props.extend(p.extra.iter().cloned());
         }
-        let full = Packet::ConnAck { session_present: sp, reason, props };
-        if rc::encode(&full).len() as u64 > self.client_max_packet as u64 {
-            // a conformant broker never exceeds the client's Maximum Packet Size
-            return Packet::ConnAck { session_present: sp, reason, props: vec![] };
+        let extra: Vec<Prop> = if reason == 0 { p.extra.clone() } else { vec![] };
+        let candidates: Vec<Vec<Prop>> = vec![
+            [limits.clone(), per_conn.clone(), extra].concat(),
+            [limits.clone(), per_conn].concat(),
+            limits,
+            vec![],
+        ];
+        for props in candidates {
+            let pk = Packet::ConnAck { session_present: sp, reason, props };
+            if rc::encode(&pk).len() as u64 <= self.client_max_packet as u64 {
+                return pk;
+            }
         }
-        full
+        Packet::ConnAck { session_present: sp, reason, props: vec![] }
     }
 
     fn handshake(&mut self, tr: &mut Transport, clean_start: bool) {
@@ -518,6 +535,16 @@ impl Broker {
                 b.state = BState::AwaitComp;
             }
             self.send(tr, Packet::PubRel(Ack::short(pid)));
+        }
+    }
+
+    /// What a broker does after a session resume: retransmit its own unacknowledged publishes.
+    pub fn resend_inflight(&mut self, tr: &mut Transport) {
+        let items: Vec<BIn> = self.b_inflight.iter().filter(|b| matches!(b.state, BState::AwaitAck | BState::AwaitRec)).cloned().collect();
+        for b in items {
+            let mut pb = b.publish.clone();
+            pb.dup = true;
+            self.send(tr, Packet::Publish(pb));
         }
     }
 
@@ -1158,6 +1185,7 @@ fn do_step(w: &mut World, tr: &Tr, conn: &mut Connection<'_, '_, SimIo>, at: (us
                 // a responsive broker also answers what it had left unanswered so far
                 w.broker.act(&mut tr.borrow_mut(), &BrokerAct::AckAll { reverse: false });
                 w.broker.release_all(&mut tr.borrow_mut());
+                w.broker.resend_inflight(&mut tr.borrow_mut());
             }
         }
         Step::PollFor { ms } => {
